@@ -249,3 +249,6 @@ def run(rep, programs):
     # a failed multi-word attempt leaves nothing marked; a success marks exactly the block
     c01.r_aon(rep, prog)
     multicas.check_undo_range(rep, prog, "R-UNDO-RANGE", lib.need_body)
+    # a failed attempt gives the huge-entry counter back: the base-order search trusts that counter before it looks at the bits
+    from props import c04
+    c04.r_balance(rep, prog)
